@@ -5,10 +5,11 @@ from ..runner import Check
 from ._history import run_history
 
 PROPERTY = "C11"
-RULE = 'Generator of C07 restricted to the 8 shipped cell configurations (+edits: grids 3..6 per side, caps 1/2/unbounded, N up to 6). Oracle before every get after the first commit: every relevant non-active unit listed exactly once (occupants + surplus), occupants in the cell of their current position, active unit in neither list and its recorded cell contains its position, caps respected; at every commit the active unit advanced to the event time lies in its recorded cell (4 ulp slack); after a cell-boundary event it is in the neighbour cell in the direction of motion. Non-trivial: history with >=1 cell crossing and >=1 active-unit change; distinct by (config, edits, seed, budget).'
+RULE = 'Generator of C07 restricted to the 8 shipped cell configurations (+edits: grids 3..6 per side, N up to 12 with clustered starts; occupant limits other than 1 only in the families G5/G6, because cell-veto and cell-bounding handlers take one target per cell). Oracle before every get after the first commit: every relevant non-active unit listed exactly once (occupants + surplus), occupants in the cell of their current position, active unit in neither list and its recorded cell contains its position, caps respected; at every commit the active unit advanced to the event time lies in its recorded cell (4 ulp slack); after a cell-boundary event it is in the neighbour cell in the direction of motion. Non-trivial: history with >=1 cell crossing and >=1 active-unit change; distinct by (config, edits, seed, budget).'
 ASSUMPTIONS = ["configurations are the runnable shipped .ini files verbatim, or shipped files with parameter edits "
                "only (particle number with number_event_handlers scaled, box, beta, chain/sampling times, grids, "
-               "occupant caps, scheduler, speed, initial direction); wiring is never generated",
+               "scheduler, speed, initial direction); generated wirings are limited to the families G4-G7 derived from "
+               "shipped files (DESIGN.md 8.5) and to a second sampling tagger copied from the shipped one",
                "observation by wrapping instance attributes of state handler, scheduler, activator, input-output "
                "handler and event handlers; private reads: Mediator._state_handler/_scheduler/_activator/"
                "_input_output_handler, Activator._taggers/_internal_states"]
